@@ -6,7 +6,10 @@ from props.c07 import P as C07
 
 class P(C07):
     id = "C18"
-    filters = [(), (1,), (2,), (1, 2), (2, 1), (7,), (1, 7), (3, 1), (4, 2), (4095,)]
+    filters = [(), (1,), (2,), (1, 2), (2, 1), (7,), (1, 7), (3, 1), (4, 2), (4095,),
+               # unlisted look-alikes of the standard types: congruent to 1 / 2 modulo powers of two, vendor formats 1 / 2, all bits
+               (65,), (66,), (129, 7), (33,), (34, 9), (257,), (258,), (4097,), (8194,), (65537,), (65538,), (2147483649,), (4294967295,),
+               (9, 17), (3, 5, 6, 10, 18)]
 
     def rule(self):
         return ("the C07 datagram stream, each datagram decoded under one of the filter lists %s (unsorted lists included); "
@@ -45,7 +48,68 @@ class P(C07):
                 viol.append({"cases": [json.dumps(c)], "verdict": "sample types listed in the sFlow type filter (%s) are %s, but the decoder is given %s: "
                              "the types missing from it are not omitted from the output" % (how, w, got)})
                 break
-        return {"violations": viol, "coverage": {"option_forms": len(cases)}, "notes": ["filter-list construction: %d option forms through the real flagSet" % len(cases)]}
+        pv, pn = self.pipeline_filter(tier, rng)
+        viol += pv
+        return {"violations": viol, "coverage": {"option_forms": len(cases), "pipeline_filter_datagrams": pn},
+                "notes": ["filter-list construction: %d option forms through the real flagSet" % len(cases),
+                          "the filter inside the real sFlow worker (one worker, decoder state carried from datagram to datagram): %d datagrams" % pn]}
+
+    def pipeline_filter(self, tier, rng):
+        """the filter as the sFlow WORKER applies it, datagram after datagram: sequences in which filtered samples stand last / first /
+        alone in a datagram and other datagrams follow; every published message must be its own datagram's unfiltered decode minus the
+        listed types, in order (one worker)"""
+        from props import sfgen
+        from props.c07 import first_diff
+        import re
+        cases, metas = [], []
+        for rep in range(6 if tier == "quick" else 60):
+            filt = rng.choice([[1], [2], [2], [1, 2], [2, 65], [7, 1]])
+            listed = {1: "flow", 2: "counter"}
+            fk = [listed[x] for x in filt if x in listed]
+            ok = [k for k in ("flow", "counter") if k not in fk]
+            dg = []
+            for _ in range(rng.choice([12, 30])):
+                shape = rng.random()
+                if shape < 0.35:      # filtered samples LAST
+                    kinds = [rng.choice(ok + ["unknown"]) for _ in range(rng.choice([1, 2]))] + [rng.choice(fk) for _ in range(rng.choice([1, 2, 3]))]
+                elif shape < 0.5:     # only filtered samples
+                    kinds = [rng.choice(fk) for _ in range(rng.choice([1, 2]))]
+                elif shape < 0.7:     # filtered samples FIRST / in between
+                    kinds = [rng.choice(fk)] + [rng.choice(ok + fk + ["unknown-enterprise"]) for _ in range(rng.choice([1, 2, 3]))]
+                else:
+                    kinds = [rng.choice(ok + ["unknown"]) for _ in range(rng.choice([1, 2, 3]))] if ok else ["unknown"]
+                p, hdr, samples = sfgen.gen_datagram(rng, kinds=kinds)
+                if len(p) <= 1400:
+                    dg.append((bytes([192, 0, 2, rng.randrange(1, 5)]), p, hdr, samples))
+            cases.append({"cmd": "pipeline", "proto": "sflow", "workers": 1, "udpsize": 1500, "mirror": False, "ext_elements": [], "pre": [],
+                          "dgrams": [[a.hex(), p.hex()] for a, p, _, _ in dg], "filter": filt})
+            metas.append((filt, dg))
+        res = vf.run_driver(cases)
+        viol, n = [], 0
+        for c, (filt, dg), r in zip(cases, metas, res):
+            if r.get("error"):
+                viol.append({"cases": [json.dumps(c)], "verdict": "pipeline driver failed: " + str(r["error"])[:200]}); break
+            want = [w for w in (sfgen.expected_doc(hdr, samples, tuple(filt)) for _, _, hdr, samples in dg) if w is not None]
+            got = []
+            for x in r.get("published") or []:
+                try:
+                    d = json.loads(bytes.fromhex(x)); d["ColTime"] = 0; got.append(d)
+                except Exception:
+                    got.append({"unparseable": x[:60]})
+            n += len(dg)
+            bad = None
+            if len(got) != len(want):
+                k = next((i for i, (w, g) in enumerate(zip(want, got)) if first_diff(w, g)), min(len(want), len(got)))
+                bad = "%d messages published for %d datagrams that have unfiltered samples (first difference at message %d)" % (len(got), len(want), k + 1)
+            else:
+                for i, (w, g) in enumerate(zip(want, got)):
+                    d = first_diff(w, g)
+                    if d:
+                        bad = "message %d differs from its datagram's unfiltered decode minus the listed types at %s" % (i + 1, d); break
+            if bad:
+                viol.append({"cases": [json.dumps(c)], "verdict": "sFlow worker with type filter %s, %d datagrams in sequence: %s" % (filt, len(dg), bad)})
+                break
+        return viol, n
 
 
 PROP = P()
